@@ -19,7 +19,7 @@ namespace Galaxy.Policy
 namespace G
 export Galaxy.Generated.Policy (namePrefix policyChainPrefix podChainPrefix ingressChain egressChain
   fmtSelSet fmtIngressIpSet fmtIngressNetSet fmtEgressIpSet fmtEgressNetSet defaultIngress defaultEgress
-  ipBlockExceptOption rulePortsDefaultProto)
+  ipBlockExceptOption rulePortsDefaultProto createIPSetKeepsRekeyedEntries)
 end G
 
 /-! ## Cluster and policy values -/
@@ -848,17 +848,29 @@ def addEntry (es : List Entry) (e : Entry) : List Entry :=
 
 def delEntry (es : List Entry) (e : Entry) : List Entry := es.filter (fun x => x.key != e.key)
 
+/-- the stale-entry clean-up of createIPSet: an old entry that is not (as a string, options included) among the new
+    ones is deleted BY KEY — unless `keep` (the regenerated fact `createIPSetKeepsRekeyedEntries`) and its key is
+    among the keys of the new entries (then only its options changed and the add above has replaced it) -/
+def cleanupEntries (keep : Bool) (new oldEs afterAdd : List Entry) : List Entry :=
+  oldEs.foldl (fun es o =>
+    if new.contains o then es
+    else if keep && new.any (fun e => e.key == o.key) then es
+    else delEntry es o) afterAdd
+
+/-- the add pass of createIPSet: entries already present (same string) are skipped, the others added with -exist -/
+def addEntries (new oldEs : List Entry) : List Entry :=
+  new.foldl (fun es e => if oldEs.contains e then es else addEntry es e) oldEs
+
 /-- createIPSet for one set: create (type mismatch aborts), then the diff-based update of the entries -/
-def syncOneSet (sets : List IpSet) (s : IpSet) : Except Fail (List IpSet) :=
+def syncOneSetWith (keep : Bool) (sets : List IpSet) (s : IpSet) : Except Fail (List IpSet) :=
   match sets.find? (·.name == s.name) with
   | some old =>
     if old.type ≠ s.type then .error .createMismatch
-    else
-      let oldEs := old.entries
-      let afterAdd := s.entries.foldl (fun es e => if oldEs.contains e then es else addEntry es e) oldEs
-      let afterDel := oldEs.foldl (fun es o => if s.entries.contains o then es else delEntry es o) afterAdd
-      .ok (updSet sets s.name (fun _ => afterDel))
+    else .ok (updSet sets s.name (fun _ => cleanupEntries keep s.entries old.entries (addEntries s.entries old.entries)))
   | none => .ok (sets ++ [{ s with entries := s.entries.foldl addEntry [] }])
+
+/-- createIPSet as the current source has it -/
+def syncOneSet : List IpSet → IpSet → Except Fail (List IpSet) := syncOneSetWith G.createIPSetKeepsRekeyedEntries
 
 def SetName.isGlx (n : SetName) : Bool := n.kind != SetKind.foreign || n.hash.startsWith G.namePrefix
 
@@ -869,20 +881,27 @@ def policyBatch (t : Table) (ps : List NetPol) : List Cmd :=
   ps.map (fun p => Cmd.decl (.plcy p.hash)) ++ stale.map Cmd.decl ++
   ps.flatMap (fun p => (policyChain p).map (Cmd.app (.plcy p.hash))) ++ stale.map Cmd.del
 
+/-- the deferred clean-up of syncRules: stale GLX sets (listed before the sync) are destroyed unless still referenced -/
+def destroyStale (t : Table) (stale : List SetName) (sets : List IpSet) : List IpSet :=
+  stale.foldl (fun ss n => if setReferenced t n then ss else ss.filter (·.name != n)) sets
+
+/-- the iptables part of syncRules -/
+def syncIptables (k : Kern) (ps : List NetPol) : Table × List Fail :=
+  match restore k (policyBatch k.tbl ps) with
+  | .ok t => (t, [])
+  | .error e => (k.tbl, [e])
+
 /-- syncRules: ipsets first, then the policy chains in one batch, stale GLX sets destroyed afterwards -/
-def syncRules (k : Kern) (c : Cluster) (ps : List NetPol) : Kern × List Fail :=
-  let listed := k.sets.map (·.name)
-  let new := compileSets c ps
-  match new.foldlM syncOneSet k.sets with
+def syncRulesWith (keep : Bool) (k : Kern) (c : Cluster) (ps : List NetPol) : Kern × List Fail :=
+  match (compileSets c ps).foldlM (syncOneSetWith keep) k.sets with
   | .error e => (k, [e])        -- nf/real: aborts in the middle; the generator never produces a type clash
   | .ok sets1 =>
-    let k1 : Kern := { k with sets := sets1 }
-    let (t2, fails) := match restore k1 (policyBatch k1.tbl ps) with
-      | .ok t => (t, [])
-      | .error e => (k1.tbl, [e])
-    let stale := listed.filter (fun n => n.isGlx && !(new.any (·.name == n)))
-    let sets2 := stale.foldl (fun ss n => if setReferenced t2 n then ss else ss.filter (·.name != n)) sets1
-    ({ sets := sets2, tbl := t2 }, fails)
+    let r := syncIptables { k with sets := sets1 } ps
+    let stale := (k.sets.map (·.name)).filter (fun n => n.isGlx && !((compileSets c ps).any (·.name == n)))
+    ({ sets := destroyStale r.1 stale sets1, tbl := r.1 }, r.2)
+
+def syncRules (k : Kern) (c : Cluster) (ps : List NetPol) : Kern × List Fail :=
+  syncRulesWith G.createIPSetKeepsRekeyedEntries k c ps
 
 def glxBaseRules : List (Chain × PRule) :=
   [(.forward, ⟨[], .jump .glxIngress⟩), (.forward, ⟨[], .jump .glxEgress⟩),
@@ -890,10 +909,9 @@ def glxBaseRules : List (Chain × PRule) :=
 
 /-- ensureBasicChain (each step's error would abort SyncPodChains; built-in chains always exist) -/
 def ensureBasic (k : Kern) : Kern × List Fail :=
-  let k := ensureChainK (ensureChainK k .glxIngress) .glxEgress
   glxBaseRules.foldl (fun (acc : Kern × List Fail) cr =>
-    let (k', f) := ensureRule acc.1 true cr.1 cr.2
-    (k', acc.2 ++ f)) (k, [])
+    ((ensureRule acc.1 true cr.1 cr.2).1, acc.2 ++ (ensureRule acc.1 true cr.1 cr.2).2))
+    (ensureChainK (ensureChainK k .glxIngress) .glxEgress, [])
 
 /-- deletePodRuleByKeyword: the first rule of the chain that mentions the pod chain is deleted -/
 def deleteHookByKeyword (k : Kern) (c : Chain) (podChainName : Chain) : Kern × List Fail :=
@@ -904,49 +922,53 @@ def deleteHookByKeyword (k : Kern) (c : Chain) (podChainName : Chain) : Kern × 
     | none => (k, [])
     | some r => deleteRule k c r
 
+/-- flush and delete the pod chain (DeleteChain fails, silently, while a hook still references it) -/
+def dropPodChain (k : Kern) (pc : Chain) : Kern :=
+  match Tbl.get k.tbl pc with
+  | none => k
+  | some _ =>
+    if chainReferenced (setChain k.tbl pc []) pc then { k with tbl := setChain k.tbl pc [] }
+    else { k with tbl := Tbl.erase (setChain k.tbl pc []) pc }
+
 /-- deletePodChains -/
 def deletePodChains (k : Kern) (q : Pod) : Kern × List Fail :=
-  let pc := Chain.pod q.hash
-  let (k1, f1) := deleteHookByKeyword k .glxIngress pc
-  let (k2, f2) := deleteHookByKeyword k1 .glxEgress pc
-  match Tbl.get k2.tbl pc with
-  | none => (k2, f1 ++ f2)
-  | some _ =>
-    let t3 := setChain k2.tbl pc []
-    let t4 := if chainReferenced t3 pc then t3 else Tbl.erase t3 pc
-    ({ k2 with tbl := t4 }, f1 ++ f2)
+  let r1 := deleteHookByKeyword k .glxIngress (.pod q.hash)
+  let r2 := deleteHookByKeyword r1.1 .glxEgress (.pod q.hash)
+  (dropPodChain r2.1 (.pod q.hash), r1.2 ++ r2.2)
+
+/-- the hook step of SyncPodChains for one direction: ensure the rule when selected, delete it otherwise -/
+def hookStep (k : Kern) (sel : Bool) (c : Chain) (r : PRule) : Kern × List Fail :=
+  if sel then ensureRule k false c r else deleteRule k c r
+
+/-- the part of SyncPodChains after ensureBasicChain -/
+def syncPodChain (k : Kern) (ps : List NetPol) (q : Pod) : Kern × List Fail :=
+  match restore k (Cmd.decl (.pod q.hash) :: (podChain ps q).map (Cmd.app (.pod q.hash))) with
+  | .error e => (k, [e])
+  | .ok t2 =>
+    match hookRule true q, hookRule false q with
+    | [hi], [he] =>
+      let r3 := hookStep { k with tbl := t2 } (hookedIngress ps q) .glxIngress hi
+      if r3.2 ≠ [] then r3 else hookStep r3.1 (hookedEgress ps q) .glxEgress he
+    | _, _ => ({ k with tbl := t2 }, [])
 
 /-- SyncPodChains for one pod -/
 def syncPod (k : Kern) (ps : List NetPol) (q : Pod) : Kern × List Fail :=
   if !(hookedIngress ps q || hookedEgress ps q) then deletePodChains k q
   else match q.ip with
   | none => (k, [])
-  | some _ =>
-    let (k1, f1) := ensureBasic k
-    if f1 ≠ [] then (k1, f1) else
-    let pc := Chain.pod q.hash
-    match restore k1 (Cmd.decl pc :: (podChain ps q).map (Cmd.app pc)) with
-    | .error e => (k1, [e])
-    | .ok t2 =>
-      let k2 : Kern := { k1 with tbl := t2 }
-      match hookRule true q, hookRule false q with
-      | [hi], [he] =>
-        let (k3, f3) := if hookedIngress ps q then ensureRule k2 false .glxIngress hi else deleteRule k2 .glxIngress hi
-        if f3 ≠ [] then (k3, f3) else
-        let (k4, f4) := if hookedEgress ps q then ensureRule k3 false .glxEgress he else deleteRule k3 .glxEgress he
-        (k4, f4)
-      | _, _ => (k2, [])
+  | some _ => if (ensureBasic k).2 ≠ [] then ensureBasic k else syncPodChain (ensureBasic k).1 ps q
 
 /-- syncPods: SyncPodChains for every pod of this node -/
 def syncPods (k : Kern) (c : Cluster) (ps : List NetPol) (node : String) : Kern × List Fail :=
   (c.pods.filter (fun q => q.node == node)).foldl (fun (acc : Kern × List Fail) q =>
-    let (k', f) := syncPod acc.1 ps q
-    (k', acc.2 ++ f)) (k, [])
+    ((syncPod acc.1 ps q).1, acc.2 ++ (syncPod acc.1 ps q).2)) (k, [])
 
 /-- PolicyManager.Run: policies → policy rules → pod chains -/
+def fullSyncWith (keep : Bool) (k : Kern) (c : Cluster) (ps : List NetPol) (node : String) : Kern × List Fail :=
+  ((syncPods (syncRulesWith keep k c ps).1 c ps node).1,
+    (syncRulesWith keep k c ps).2 ++ (syncPods (syncRulesWith keep k c ps).1 c ps node).2)
+
 def fullSync (k : Kern) (c : Cluster) (ps : List NetPol) (node : String) : Kern × List Fail :=
-  let (k1, f1) := syncRules k c ps
-  let (k2, f2) := syncPods k1 c ps node
-  (k2, f1 ++ f2)
+  fullSyncWith G.createIPSetKeepsRekeyedEntries k c ps node
 
 end Galaxy.Policy
